@@ -162,6 +162,31 @@ def run(ctx):
             ctx.ob("R1", "write-phase|%s|%s" % (q, key), osite.loc(), text, ok)
         if n_writing == 0:
             ctx.ob("R1", "never-writes|%s" % q, site.loc(), "%s has no path that writes its output" % q, False)
+        # R5: a failure while signing must end the operation: no handler of the signer itself (or of
+        # its private helpers) swallows an exception on a path that goes on to write the target
+        own_mod = fi.mod.short
+        swallowed = {}
+        for p in sm.paths:
+            evs_all = list(all_events(p.events))
+            writes = any((ev[0] == "call" and ev[2] == "builtin:open" and ev[3] and ev[3][0] == target and write_mode(open_mode(ev))) or (ev[0] == "fs-mutation" and any(a == target for a in ev[3])) for ev in evs_all)
+            if not writes:
+                continue
+            for ev in evs_all:
+                if ev[0] != "caught":
+                    continue
+                hsite = ev[1]
+                hq = getattr(hsite, "fn", None) or ""
+                if not (hq == q or (hq.startswith(own_mod + ".") and hq.split(".")[-1].startswith("_")) or hq.startswith(q + ".")):
+                    continue  # a library predicate's own probe (is_*), not the signer's handler
+                swallowed.setdefault(hsite.key(), (hsite, ev[2]))
+        ctx.count("R5.signers")
+        ctx.ob(
+            "R5",
+            "no-swallowed-failure|%s" % q,
+            site.loc() if not swallowed else sorted(swallowed.values(), key=lambda x: x[0].loc())[0][0].loc(),
+            "%s %s" % (q, "has no handler of its own that lets the operation continue to the write after a failure" if not swallowed else "continues to write the target after a failure was caught: " + "; ".join("%s caught at %s" % (exc, hs.loc()) for hs, exc in sorted(swallowed.values(), key=lambda x: x[0].loc()))[:300] + " (a partially signed or unsigned file is written and success is reported)"),
+            not swallowed,
+        )
         ctx.ob("R2", "no-write-in-loop|%s" % q, site.loc() if not loops_bad else loops_bad[0].loc(), "%s %s" % (q, "never opens or rewrites the target inside a loop" if not loops_bad else "opens/rewrites the target inside a loop (partially signed output can be left behind)"), not loops_bad)
     ctx.floor("R1.signers", 2)
 
